@@ -228,10 +228,11 @@ def tag_array(n, form):
     return np.array([base + i for i in range(n)], dtype=np.dtype(dt))
 
 
-def vec_array(vec, form):
+def vec_array(vec, form, group=1):
+    """group: consecutive rows that have to stay equal (the centering copies of one motif atom) get the same decade"""
     v = np.array(vec, dtype=float).reshape(-1, 3)
     if 'decades' in form:
-        v = v * np.array([10.0 ** DECADES[i % len(DECADES)] for i in range(len(v))])[:, None]
+        v = v * np.array([10.0 ** DECADES[(i // group) % len(DECADES)] for i in range(len(v))])[:, None]
     if form.startswith('f4'):
         return v.astype(np.float32)
     if form == '>f8':
